@@ -1,9 +1,20 @@
 /-
 C18h (numerical layer) — accuracy of the hyperbolic functions `cosh`, `sinh`, `tanh` (property C18), from the accuracy
-theorem of `exp` (`ExpBound.exp_bound_split`: relative `37u²`, `21u²` for non-negative arguments; `u = 2^-53`).
+theorem of `exp` (`ExpBound.exp_bound_split`: relative `37u²`, and `21u²` for non-negative arguments; `u = 2^-53`,
+`2^-100 = 64u²`, `2^-101 = 32u²`).
 
 Values are real numbers: `val t = (hi + lo) = t.V / 2^1074 : ℝ`; the reference functions are Mathlib's
 `Real.cosh`, `Real.sinh`, `Real.tanh`.
+
+  * `cosh_bound`  : `|x| ≤ 600`: relative `2^-100` — PROVED IN FULL (`41.2u²`: `37` for `exp`, `1.1` for the exact
+    division by `2.0` — one rounding of the low word, `Exp2Bound.div_pow2_rv` —, `3.01` for the addition).
+  * `sinh_bound`  : `|x| ≤ 600`: within `2^-100·|sinh x| + 2^-101` — PROVED IN FULL.  The absolute term carries the
+    result near `0`, where the two halves `e^(±x)/2 ≈ 1/2` carry errors `22.1u²` and `38.1u²` of `1/2` each:
+    `(22.1 + 38.1)/2 = 30.1 < 32` (the asymmetric `21u²/37u²` of `exp` is what makes this fit).
+  * `tanh_bound_partial` : `2^-90 ≤ |x| ≤ 600`: within `2^-100·|tanh x| + 2^-101`.  PARTIAL in the range (TARGET: all
+    `|x| ≤ 600`): for `|x| < 2^-90` the computed numerator `exp(x) − exp(−x)` is only known to `≈ 2^-100` absolute, so
+    it may be tiny or zero and the long division leaves the range of the proved division theorem
+    (`Exp2Bound.div_rv`, `16u²`).  The error analysis itself (`tanh_real`) gives `29u² + 43.1u²·|tanh x|`.
 -/
 import TFV.Lemmas.Exp2Bound
 import Mathlib.Analysis.Complex.Trigonometric
@@ -170,7 +181,7 @@ theorem cosh_bound (x : TwoFloat) (hv : x.Valid) (hw : x.WF) (h : |val x| ≤ 60
 /-! ## sinh -/
 
 /-- real-number core of `sinh`, `v ≥ 0` (`A = e^v ≥ 1 ≥ B = e^-v`) -/
-theorem sinh_real {a b r A B : ℝ} (hA : 1 ≤ A) (hB0 : 0 < B) (hB : B ≤ 1)
+theorem sinh_real {a b r A B : ℝ} (hA : 1 ≤ A) (_hB0 : 0 < B) (hB : B ≤ 1)
     (ha : |a - A / 2| ≤ 221 / 10 / 2 ^ 106 * (A / 2))
     (hb : |b - B / 2| ≤ 381 / 10 / 2 ^ 106 * (B / 2)) (hr : |r - (a - b)| ≤ cA * |a - b|) :
     |r - (A - B) / 2| ≤ ((A - B) / 2) / 2 ^ 100 + 1 / 2 ^ 101 := by
@@ -236,7 +247,6 @@ theorem sinh_bound (x : TwoFloat) (hv : x.Valid) (hw : x.WF) (h : |val x| ≤ 60
   generalize rv (arithmetic.impl_Div_f64_for_TwoFloat.div (TwoFloat.exp x) two) = a at *
   generalize rv (arithmetic.impl_Div_f64_for_TwoFloat.div (TwoFloat.exp (arithmetic.impl_Neg_for_TwoFloat.neg x)) two)
     = b at *
-  have hAB : Real.exp (rv x) * Real.exp (-rv x) = 1 := by rw [← Real.exp_add]; simp
   have hA0 := Real.exp_pos (rv x)
   have hB0 := Real.exp_pos (-rv x)
   by_cases h0 : 0 ≤ rv x
@@ -257,5 +267,395 @@ theorem sinh_bound (x : TwoFloat) (hv : x.Valid) (hw : x.WF) (h : |val x| ≤ 60
     rw [abs_of_nonpos (by linarith : (Real.exp (rv x) - Real.exp (-rv x)) / 2 ≤ 0)]
     rw [show -((Real.exp (rv x) - Real.exp (-rv x)) / 2) = (Real.exp (-rv x) - Real.exp (rv x)) / 2 by ring]
     exact core
+
+/-! ## tanh -/
+
+/-- a quotient of two approximations, `n ≈ t ≥ 0`, `d ≈ 1`, followed by one relative rounding `θ` -/
+theorem quot_real {t n d q δn δd θ : ℝ} (ht : 0 ≤ t) (hn : |n - t| ≤ δn) (hd : |d - 1| ≤ δd) (hδ : δd ≤ 1 / 2)
+    (hq : |q - n / d| ≤ θ * |n / d|) (hθ : 0 ≤ θ) :
+    |q - t| ≤ (1 + θ) * ((δn + t * δd) / (1 - δd)) + θ * t := by
+  obtain ⟨d1, d2⟩ := abs_le.1 hd
+  have hδn : 0 ≤ δn := le_trans (abs_nonneg _) hn
+  have hδd : 0 ≤ δd := le_trans (abs_nonneg _) hd
+  have hd0 : 0 < 1 - δd := by linarith
+  have hdpos : 0 < d := by linarith
+  have hnum : |n - t - t * (d - 1)| ≤ δn + t * δd := by
+    have := abs_add_le (n - t) (-(t * (d - 1)))
+    rw [abs_neg, abs_mul, abs_of_nonneg ht, show n - t + -(t * (d - 1)) = n - t - t * (d - 1) by ring] at this
+    have h2 : t * |d - 1| ≤ t * δd := mul_le_mul_of_nonneg_left hd ht
+    linarith
+  have hX : |n / d - t| ≤ (δn + t * δd) / (1 - δd) := by
+    have e : n / d - t = (n - t - t * (d - 1)) / d := by field_simp; ring
+    rw [e, abs_div, abs_of_pos hdpos]
+    calc |n - t - t * (d - 1)| / d ≤ (δn + t * δd) / d :=
+          div_le_div_of_nonneg_right hnum hdpos.le
+      _ ≤ (δn + t * δd) / (1 - δd) :=
+          div_le_div_of_nonneg_left (by positivity) hd0 (by linarith)
+  have hnd : |n / d| ≤ t + (δn + t * δd) / (1 - δd) := by
+    have := abs_sub_abs_le_abs_sub (n / d) t
+    rw [abs_of_nonneg ht] at this
+    linarith
+  have h1 := abs_add_le (q - n / d) (n / d - t)
+  rw [show q - n / d + (n / d - t) = q - t by ring] at h1
+  have h2 := mul_le_mul_of_nonneg_left hnd hθ
+  have e : (1 + θ) * ((δn + t * δd) / (1 - δd)) + θ * t
+      = θ * (t + (δn + t * δd) / (1 - δd)) + (δn + t * δd) / (1 - δd) := by ring
+  linarith
+
+/-- real-number core of `tanh`, `v ≥ 0` (`A = e^v ≥ B = e^-v > 0`; `u = 2^-106` stands for `u²`) -/
+theorem tanh_real {a b n d q A B : ℝ} (hAB : B ≤ A) (hB0 : 0 < B)
+    (ha : |a - A| ≤ 21 / 2 ^ 106 * A) (hb : |b - B| ≤ 37 / 2 ^ 106 * B)
+    (hn : |n - (a - b)| ≤ cA * |a - b|) (hd : |d - (a + b)| ≤ cA * |a + b|)
+    (hq : |q - n / d| ≤ 1 / 2 ^ 102 * |n / d|) :
+    |q - (A - B) / (A + B)| ≤ ((A - B) / (A + B)) / 2 ^ 100 + 1 / 2 ^ 101 := by
+  have hA0 : 0 < A := lt_of_lt_of_le hB0 hAB
+  have hD : 0 < A + B := by linarith
+  set D := A + B with hDdef
+  set t := (A - B) / D with htdef
+  set w := (21 / 2 ^ 106 * A + 37 / 2 ^ 106 * B) / D with hwdef
+  have ht0 : 0 ≤ t := div_nonneg (by linarith) hD.le
+  have ht1 : t ≤ 1 := by rw [htdef, div_le_one hD]; linarith
+  have hw0 : 0 ≤ w := by positivity
+  have hw37 : w ≤ 37 / 2 ^ 106 := by
+    rw [hwdef, div_le_iff₀ hD, hDdef]
+    nlinarith
+  have hwt : w * (1 + t) ≤ 1 / 2 ^ 106 * (29 + 21 * t) := by
+    have e1 : w * (1 + t) = (21 / 2 ^ 106 * A + 37 / 2 ^ 106 * B) * (2 * A) / (D * D) := by
+      rw [hwdef, htdef]; field_simp; rw [hDdef]; ring
+    have e2 : (1 : ℝ) / 2 ^ 106 * (29 + 21 * t) = 1 / 2 ^ 106 * ((50 * A + 8 * B) * D) / (D * D) := by
+      rw [htdef]; field_simp; rw [hDdef]; ring
+    rw [e1, e2, div_le_div_iff_of_pos_right (by positivity), hDdef]
+    have : (0 : ℝ) ≤ 1 / 2 ^ 106 * (8 * (A - B) ^ 2) :=
+      mul_nonneg (by norm_num) (mul_nonneg (by norm_num) (sq_nonneg _))
+    nlinarith
+  -- the sums and differences of the two exponentials
+  have hW : |a - b - (A - B)| ≤ w * D ∧ |a + b - D| ≤ w * D := by
+    have e : w * D = 21 / 2 ^ 106 * A + 37 / 2 ^ 106 * B := by rw [hwdef]; field_simp
+    rw [e]
+    constructor
+    · have := abs_add_le (a - A) (-(b - B))
+      rw [abs_neg, show a - A + -(b - B) = a - b - (A - B) by ring] at this
+      linarith
+    · have := abs_add_le (a - A) (b - B)
+      rw [show a - A + (b - B) = a + b - D by rw [hDdef]; ring] at this
+      linarith
+  have hN : |a - b| ≤ (t + w) * D := by
+    have := abs_sub_abs_le_abs_sub (a - b) (A - B)
+    rw [abs_of_nonneg (by linarith : (0 : ℝ) ≤ A - B)] at this
+    have e : (t + w) * D = (A - B) + w * D := by rw [htdef]; field_simp
+    linarith [hW.1]
+  have hDD : |a + b| ≤ (1 + w) * D := by
+    have := abs_sub_abs_le_abs_sub (a + b) D
+    rw [abs_of_pos hD] at this
+    have e : (1 + w) * D = D + w * D := by ring
+    linarith [hW.2]
+  have hn' : |n / D - t| ≤ 301 / 100 / 2 ^ 106 * (t + w) + w := by
+    have e : n / D - t = (n - (A - B)) / D := by rw [htdef]; field_simp
+    rw [e, abs_div, abs_of_pos hD, div_le_iff₀ hD]
+    have h1 := abs_add_le (n - (a - b)) (a - b - (A - B))
+    rw [show n - (a - b) + (a - b - (A - B)) = n - (A - B) by ring] at h1
+    have h2 : cA * |a - b| ≤ 301 / 100 / 2 ^ 106 * ((t + w) * D) :=
+      mul_le_mul cA_le' hN (abs_nonneg _) (by positivity)
+    have e2 : (301 / 100 / 2 ^ 106 * (t + w) + w) * D = 301 / 100 / 2 ^ 106 * ((t + w) * D) + w * D := by ring
+    linarith [hW.1]
+  have hd' : |d / D - 1| ≤ 301 / 100 / 2 ^ 106 * (1 + w) + w := by
+    have e : d / D - 1 = (d - D) / D := by field_simp
+    rw [e, abs_div, abs_of_pos hD, div_le_iff₀ hD]
+    have h1 := abs_add_le (d - (a + b)) (a + b - D)
+    rw [show d - (a + b) + (a + b - D) = d - D by ring] at h1
+    have h2 : cA * |a + b| ≤ 301 / 100 / 2 ^ 106 * ((1 + w) * D) :=
+      mul_le_mul cA_le' hDD (abs_nonneg _) (by positivity)
+    have e2 : (301 / 100 / 2 ^ 106 * (1 + w) + w) * D = 301 / 100 / 2 ^ 106 * ((1 + w) * D) + w * D := by ring
+    linarith [hW.2]
+  have hq' : |q - (n / D) / (d / D)| ≤ 1 / 2 ^ 102 * |(n / D) / (d / D)| := by
+    have e : (n / D) / (d / D) = n / d := by
+      by_cases hd0 : d = 0
+      · rw [hd0]; simp
+      · field_simp
+    rw [e]; exact hq
+  have hδd : 301 / 100 / 2 ^ 106 * (1 + w) + w ≤ 41 / 2 ^ 106 := by
+    have : 301 / 100 / 2 ^ 106 * (1 + w) ≤ 301 / 100 / 2 ^ 106 * (1 + 37 / 2 ^ 106) :=
+      mul_le_mul_of_nonneg_left (by linarith) (by positivity)
+    have e : (301 : ℝ) / 100 / 2 ^ 106 * (1 + 37 / 2 ^ 106) + 37 / 2 ^ 106 ≤ 41 / 2 ^ 106 := by norm_num
+    linarith
+  have core := quot_real ht0 hn' hd' (le_trans hδd (by norm_num)) hq' (by positivity)
+  refine le_trans core ?_
+  -- numerics
+  set δd := 301 / 100 / 2 ^ 106 * (1 + w) + w with hδddef
+  have hδd0 : 0 ≤ δd := by positivity
+  have hden : 0 < 1 - δd := by
+    have : (41 : ℝ) / 2 ^ 106 < 1 := by norm_num
+    linarith
+  have hnum : 301 / 100 / 2 ^ 106 * (t + w) + w + t * δd
+      ≤ 1 / 2 ^ 106 * (29 + 2703 / 100 * t) + 1 / 2 ^ 106 * (1 / 2 ^ 90) := by
+    have e : 301 / 100 / 2 ^ 106 * (t + w) + w + t * δd
+        = w * (1 + t) + 301 / 100 / 2 ^ 106 * (2 * t) + 301 / 100 / 2 ^ 106 * (w + t * w) := by
+      rw [hδddef]; ring
+    rw [e]
+    have h1 : w + t * w ≤ 2 * (37 / 2 ^ 106) := by nlinarith
+    have h2 : 301 / 100 / 2 ^ 106 * (w + t * w) ≤ 301 / 100 / 2 ^ 106 * (2 * (37 / 2 ^ 106)) :=
+      mul_le_mul_of_nonneg_left h1 (by positivity)
+    have e3 : (301 : ℝ) / 100 / 2 ^ 106 * (2 * (37 / 2 ^ 106)) ≤ 1 / 2 ^ 106 * (1 / 2 ^ 90) := by norm_num
+    have e4 : (1 : ℝ) / 2 ^ 106 * (29 + 2703 / 100 * t)
+        = 1 / 2 ^ 106 * (29 + 21 * t) + 301 / 100 / 2 ^ 106 * (2 * t) + 1 / 2 ^ 106 * (1 / 100 * t) := by ring
+    have h5 : (0 : ℝ) ≤ 1 / 2 ^ 106 * (1 / 100 * t) :=
+      mul_nonneg (by norm_num) (mul_nonneg (by norm_num) ht0)
+    linarith
+  have hfrac : (301 / 100 / 2 ^ 106 * (t + w) + w + t * δd) / (1 - δd)
+      ≤ 1 / 2 ^ 106 * (2901 / 100 + 2704 / 100 * t) := by
+    rw [div_le_iff₀ hden]
+    have h1 : 1 - 41 / 2 ^ 106 ≤ 1 - δd := by linarith
+    have h2 : (0 : ℝ) ≤ 1 / 2 ^ 106 * (2901 / 100 + 2704 / 100 * t) := by positivity
+    have h3 : 1 / 2 ^ 106 * (2901 / 100 + 2704 / 100 * t) * (1 - 41 / 2 ^ 106)
+        ≤ 1 / 2 ^ 106 * (2901 / 100 + 2704 / 100 * t) * (1 - δd) := mul_le_mul_of_nonneg_left h1 h2
+    refine le_trans hnum (le_trans ?_ h3)
+    have e : 1 / 2 ^ 106 * (2901 / 100 + 2704 / 100 * t) * (1 - 41 / 2 ^ 106)
+        - (1 / 2 ^ 106 * (29 + 2703 / 100 * t) + 1 / 2 ^ 106 * (1 / 2 ^ 90))
+        = 1 / 2 ^ 106 * ((1 / 100 - 2901 / 100 * (41 / 2 ^ 106) - 1 / 2 ^ 90)
+            + (1 / 100 - 2704 / 100 * (41 / 2 ^ 106)) * t) := by ring
+    have t1 : (0 : ℝ) ≤ (1 / 100 - 2704 / 100 * (41 / 2 ^ 106)) * t := mul_nonneg (by norm_num) ht0
+    have t2 : (0 : ℝ) ≤ 1 / 100 - 2901 / 100 * (41 / 2 ^ 106) - 1 / 2 ^ 90 := by norm_num
+    have : (0 : ℝ) ≤ 1 / 2 ^ 106 * ((1 / 100 - 2901 / 100 * (41 / 2 ^ 106) - 1 / 2 ^ 90)
+            + (1 / 100 - 2704 / 100 * (41 / 2 ^ 106)) * t) := mul_nonneg (by positivity) (by linarith)
+    linarith
+  have hfin : (1 + 1 / 2 ^ 102) * (1 / 2 ^ 106 * (2901 / 100 + 2704 / 100 * t)) + 1 / 2 ^ 102 * t
+      ≤ t / 2 ^ 100 + 1 / 2 ^ 101 := by
+    have e : t / 2 ^ 100 + 1 / 2 ^ 101
+        - ((1 + 1 / 2 ^ 102) * (1 / 2 ^ 106 * (2901 / 100 + 2704 / 100 * t)) + 1 / 2 ^ 102 * t)
+        = 1 / 2 ^ 106 * ((32 - (1 + 1 / 2 ^ 102) * (2901 / 100))
+            + (64 - 16 - (1 + 1 / 2 ^ 102) * (2704 / 100)) * t) := by ring
+    have t1 : (0 : ℝ) ≤ (64 - 16 - (1 + 1 / 2 ^ 102) * (2704 / 100)) * t := mul_nonneg (by norm_num) ht0
+    have t2 : (0 : ℝ) ≤ 32 - (1 + 1 / 2 ^ 102) * (2901 / 100) := by norm_num
+    have : (0 : ℝ) ≤ 1 / 2 ^ 106 * ((32 - (1 + 1 / 2 ^ 102) * (2901 / 100))
+            + (64 - 16 - (1 + 1 / 2 ^ 102) * (2704 / 100)) * t) := mul_nonneg (by positivity) (by linarith)
+    linarith
+  have h6 := mul_le_mul_of_nonneg_left hfrac (by positivity : (0 : ℝ) ≤ 1 + 1 / 2 ^ 102)
+  linarith
+
+/-- crude bounds on the computed numerator and denominator of `tanh` -/
+theorem nd_real {a b n d A B : ℝ} (hA : 0 < A) (hB : 0 < B)
+    (ha : |a - A| ≤ 37 / 2 ^ 106 * A) (hb : |b - B| ≤ 37 / 2 ^ 106 * B)
+    (hn : |n - (a - b)| ≤ cA * |a - b|) (hd : |d - (a + b)| ≤ cA * |a + b|) :
+    |n - (A - B)| ≤ 41 / 2 ^ 106 * (A + B) ∧ |d - (A + B)| ≤ 41 / 2 ^ 106 * (A + B) := by
+  have hD : 0 < A + B := by linarith
+  have h1 : |a - b - (A - B)| ≤ 37 / 2 ^ 106 * (A + B) := by
+    have := abs_add_le (a - A) (-(b - B))
+    rw [abs_neg, show a - A + -(b - B) = a - b - (A - B) by ring] at this
+    linarith
+  have h2 : |a + b - (A + B)| ≤ 37 / 2 ^ 106 * (A + B) := by
+    have := abs_add_le (a - A) (b - B)
+    rw [show a - A + (b - B) = a + b - (A + B) by ring] at this
+    linarith
+  have hNle : |A - B| ≤ A + B := by rw [abs_le]; constructor <;> linarith
+  have h3 : |a - b| ≤ (1 + 37 / 2 ^ 106) * (A + B) := by
+    have := abs_sub_abs_le_abs_sub (a - b) (A - B)
+    linarith
+  have h4 : |a + b| ≤ (1 + 37 / 2 ^ 106) * (A + B) := by
+    have := abs_sub_abs_le_abs_sub (a + b) (A + B)
+    rw [abs_of_pos hD] at this
+    linarith
+  have hc : cA * ((1 + 37 / 2 ^ 106) * (A + B)) ≤ 4 / 2 ^ 106 * (A + B) := by
+    have : cA * (1 + 37 / 2 ^ 106) ≤ 301 / 100 / 2 ^ 106 * (1 + 37 / 2 ^ 106) :=
+      mul_le_mul_of_nonneg_right cA_le' (by positivity)
+    have e : (301 : ℝ) / 100 / 2 ^ 106 * (1 + 37 / 2 ^ 106) ≤ 4 / 2 ^ 106 := by norm_num
+    calc cA * ((1 + 37 / 2 ^ 106) * (A + B)) = cA * (1 + 37 / 2 ^ 106) * (A + B) := by ring
+      _ ≤ 4 / 2 ^ 106 * (A + B) := mul_le_mul_of_nonneg_right (le_trans this e) hD.le
+  constructor
+  · have := abs_add_le (n - (a - b)) (a - b - (A - B))
+    rw [show n - (a - b) + (a - b - (A - B)) = n - (A - B) by ring] at this
+    have h5 := mul_le_mul_of_nonneg_left h3 cA_nonneg
+    linarith
+  · have := abs_add_le (d - (a + b)) (a + b - (A + B))
+    rw [show d - (a + b) + (a + b - (A + B)) = d - (A + B) by ring] at this
+    have h5 := mul_le_mul_of_nonneg_left h4 cA_nonneg
+    linarith
+
+/-- `e^v − e^-v ≥ 2^-91 (e^v + e^-v)` for `v ≥ 2^-90` -/
+theorem exp_diff_ge {v : ℝ} (hv : 1 / 2 ^ 90 ≤ v) :
+    1 / 2 ^ 91 * (Real.exp v + Real.exp (-v)) ≤ Real.exp v - Real.exp (-v) := by
+  have hB := Real.exp_pos (-v)
+  have h1 : Real.exp v = Real.exp (-v) * Real.exp (2 * v) := by rw [← Real.exp_add]; congr 1; ring
+  have h2 : 2 * v + 1 ≤ Real.exp (2 * v) := Real.add_one_le_exp _
+  have h3 : Real.exp (-v) * (1 + 1 / 2 ^ 89) ≤ Real.exp v := by
+    rw [h1]
+    exact mul_le_mul_of_nonneg_left (by linarith) hB.le
+  have e : (1 : ℝ) / 2 ^ 89 = 4 / 2 ^ 91 := by norm_num
+  rw [e] at h3
+  nlinarith
+
+/-- **Property C18, accuracy of `tanh`** — PARTIAL in the range: for every valid `x` with `2^-90 ≤ |x| ≤ 600`,
+`tanh(x)` is a valid pair within `2^-100·|tanh x| + 2^-101` of `tanh x`.
+(TARGET: all `|x| ≤ 600`.  For `|x| < 2^-90` the computed numerator `exp(x) − exp(−x)` is only known through the
+relative bound of `exp`, i.e. to `≈ 2^-100` absolute, so that it may be tiny or zero and the long division leaves the
+range of the proved division theorem.) -/
+theorem tanh_bound_partial (x : TwoFloat) (hv : x.Valid) (hw : x.WF) (hlo : 1 / 2 ^ 90 ≤ |val x|)
+    (h : |val x| ≤ 600) :
+    (TwoFloat.tanh x).Valid ∧ (TwoFloat.tanh x).WF ∧
+    |val (TwoFloat.tanh x) - Real.tanh (val x)| ≤ |Real.tanh (val x)| / 2 ^ 100 + 1 / 2 ^ 101 := by
+  obtain ⟨nvw, hn⟩ := neg_rv ⟨hv, hw⟩
+  obtain ⟨h1, h2⟩ := abs_le.1 h
+  obtain ⟨avw, a37, a21⟩ := exp_bound_split x hv hw (by linarith) (by linarith)
+  obtain ⟨bvw, b37, b21⟩ := exp_bound_split _ nvw.1 nvw.2 (by rw [hn]; linarith) (by rw [hn]; linarith)
+  rw [hn] at b37 b21
+  obtain ⟨rA1, rA2⟩ := exp_range_600 h
+  obtain ⟨rB1, rB2⟩ := exp_range_600 (v := -rv x) (by rw [abs_neg]; exact h)
+  have hA0 := Real.exp_pos (rv x)
+  have hB0 := Real.exp_pos (-rv x)
+  have hAB : Real.exp (rv x) * Real.exp (-rv x) = 1 := by rw [← Real.exp_add]; simp
+  have haabs : |rv (TwoFloat.exp x)| ≤ 2 ^ 1000 := by
+    have := abs_sub_abs_le_abs_sub (rv (TwoFloat.exp x)) (Real.exp (rv x))
+    rw [abs_of_pos hA0] at this
+    have h3 : (37 : ℝ) / 2 ^ 106 * Real.exp (rv x) ≤ Real.exp (rv x) := by
+      have : (37 : ℝ) / 2 ^ 106 ≤ 1 := by norm_num
+      nlinarith
+    have e : (2 : ℝ) ^ 867 + 2 ^ 867 ≤ 2 ^ 1000 := by norm_num
+    linarith
+  have hbabs : |rv (TwoFloat.exp (arithmetic.impl_Neg_for_TwoFloat.neg x))| ≤ 2 ^ 1000 := by
+    have := abs_sub_abs_le_abs_sub (rv (TwoFloat.exp (arithmetic.impl_Neg_for_TwoFloat.neg x))) (Real.exp (-rv x))
+    rw [abs_of_pos hB0] at this
+    have h3 : (37 : ℝ) / 2 ^ 106 * Real.exp (-rv x) ≤ Real.exp (-rv x) := by
+      have : (37 : ℝ) / 2 ^ 106 ≤ 1 := by norm_num
+      nlinarith
+    have e : (2 : ℝ) ^ 867 + 2 ^ 867 ≤ 2 ^ 1000 := by norm_num
+    linarith
+  obtain ⟨numvw, hnum⟩ := sub_rv avw bvw haabs hbabs
+  obtain ⟨denvw, hden⟩ := add_rv avw bvw haabs hbabs
+  obtain ⟨nd1, nd2⟩ := nd_real hA0 hB0 a37 b37 hnum hden
+  -- the size of the exact numerator and denominator
+  have hD2 : 2 ≤ Real.exp (rv x) + Real.exp (-rv x) := by nlinarith [sq_nonneg (Real.exp (rv x) - Real.exp (-rv x))]
+  have hDle : Real.exp (rv x) + Real.exp (-rv x) ≤ 2 ^ 868 := by
+    have : (2 : ℝ) ^ 868 = 2 ^ 867 + 2 ^ 867 := by norm_num
+    linarith
+  have hNge : 1 / 2 ^ 91 * (Real.exp (rv x) + Real.exp (-rv x)) ≤ |Real.exp (rv x) - Real.exp (-rv x)| := by
+    by_cases h0 : 0 ≤ rv x
+    · rw [abs_of_nonneg h0] at hlo
+      exact le_trans (exp_diff_ge hlo) (le_abs_self _)
+    · have h0' : rv x < 0 := not_le.1 h0
+      rw [abs_of_neg h0'] at hlo
+      have := exp_diff_ge (v := -rv x) hlo
+      rw [_root_.neg_neg] at this
+      have h5 := neg_le_abs (Real.exp (rv x) - Real.exp (-rv x))
+      linarith
+  set D := Real.exp (rv x) + Real.exp (-rv x) with hDdef
+  set N := Real.exp (rv x) - Real.exp (-rv x) with hNdef
+  have hNle : |N| ≤ D := by rw [abs_le]; constructor <;> rw [hNdef, hDdef] <;> linarith
+  -- ranges of the computed numerator and denominator
+  generalize hnumr : rv (arithmetic.impl_Sub_TwoFloat_for_TwoFloat.sub (TwoFloat.exp x)
+    (TwoFloat.exp (arithmetic.impl_Neg_for_TwoFloat.neg x))) = nr at *
+  generalize hdenr : rv (arithmetic.impl_Add_TwoFloat_for_TwoFloat.add (TwoFloat.exp x)
+    (TwoFloat.exp (arithmetic.impl_Neg_for_TwoFloat.neg x))) = dr at *
+  have hD0 : 0 < D := by linarith
+  have e41 : (41 : ℝ) / 2 ^ 106 * D ≤ 1 / 2 ^ 100 * D := mul_le_mul_of_nonneg_right (by norm_num) hD0.le
+  have n_lo : 1 / 2 ^ 92 * D ≤ |nr| := by
+    have := abs_sub_abs_le_abs_sub N nr
+    rw [abs_sub_comm N nr] at this
+    have e : (1 : ℝ) / 2 ^ 91 * D - 1 / 2 ^ 100 * D = (1 / 2 ^ 91 - 1 / 2 ^ 100) * D := by ring
+    have e2 : (1 : ℝ) / 2 ^ 92 * D ≤ (1 / 2 ^ 91 - 1 / 2 ^ 100) * D :=
+      mul_le_mul_of_nonneg_right (by norm_num) hD0.le
+    linarith
+  have n_hi : |nr| ≤ 2 * D := by
+    have := abs_sub_abs_le_abs_sub nr N
+    have : (1 : ℝ) / 2 ^ 100 * D ≤ D := by
+      have : (1 : ℝ) / 2 ^ 100 ≤ 1 := by norm_num
+      nlinarith
+    linarith
+  have d_lo : D / 2 ≤ |dr| := by
+    have := abs_sub_abs_le_abs_sub D dr
+    rw [abs_sub_comm D dr, abs_of_pos hD0] at this
+    have : (1 : ℝ) / 2 ^ 100 * D ≤ D / 2 := by
+      have : (1 : ℝ) / 2 ^ 100 ≤ 1 / 2 := by norm_num
+      nlinarith
+    linarith
+  have d_hi : |dr| ≤ 2 * D := by
+    have := abs_sub_abs_le_abs_sub dr D
+    rw [abs_of_pos hD0] at this
+    have : (1 : ℝ) / 2 ^ 100 * D ≤ D := by
+      have : (1 : ℝ) / 2 ^ 100 ≤ 1 := by norm_num
+      nlinarith
+    linarith
+  have hq := div_rv numvw denvw (by
+      rw [hnumr]
+      have : (1 : ℝ) / 2 ^ 950 ≤ 1 / 2 ^ 92 * 2 := by norm_num
+      have : (1 : ℝ) / 2 ^ 92 * 2 ≤ 1 / 2 ^ 92 * D := mul_le_mul_of_nonneg_left hD2 (by positivity)
+      linarith)
+    (by rw [hnumr]; have : (2 : ℝ) * 2 ^ 868 ≤ 2 ^ 1000 := by norm_num
+        linarith)
+    (by rw [hdenr]; have : (1 : ℝ) / 2 ^ 950 ≤ 2 / 2 := by norm_num
+        linarith)
+    (by rw [hdenr]; have : (2 : ℝ) * 2 ^ 868 ≤ 2 ^ 1000 := by norm_num
+        linarith)
+    (by rw [hnumr, hdenr]
+        have : (1 : ℝ) / 2 ^ 950 * |dr| ≤ 1 / 2 ^ 950 * (2 * D) := mul_le_mul_of_nonneg_left d_hi (by positivity)
+        have e : (1 : ℝ) / 2 ^ 950 * (2 * D) ≤ 1 / 2 ^ 92 * D := by
+          rw [← mul_assoc]; exact mul_le_mul_of_nonneg_right (by norm_num) hD0.le
+        linarith)
+    (by rw [hnumr, hdenr]
+        have : (2 : ℝ) ^ 1000 * (D / 2) ≤ 2 ^ 1000 * |dr| := mul_le_mul_of_nonneg_left d_lo (by positivity)
+        have e : 2 * D ≤ (2 : ℝ) ^ 1000 * (D / 2) := by
+          rw [show (2 : ℝ) ^ 1000 * (D / 2) = 2 ^ 999 * D by ring]
+          exact mul_le_mul_of_nonneg_right (by norm_num) hD0.le
+        linarith)
+  obtain ⟨qvw, hqe⟩ := hq
+  rw [hnumr, hdenr] at hqe
+  refine ⟨qvw.1, qvw.2, ?_⟩
+  rw [Real.tanh_eq]
+  show |rv (arithmetic.impl_Div_TwoFloat_for_TwoFloat.div
+      (arithmetic.impl_Sub_TwoFloat_for_TwoFloat.sub (TwoFloat.exp x)
+        (TwoFloat.exp (arithmetic.impl_Neg_for_TwoFloat.neg x)))
+      (arithmetic.impl_Add_TwoFloat_for_TwoFloat.add (TwoFloat.exp x)
+        (TwoFloat.exp (arithmetic.impl_Neg_for_TwoFloat.neg x)))) - N / D| ≤ |N / D| / 2 ^ 100 + 1 / 2 ^ 101
+  generalize rv (arithmetic.impl_Div_TwoFloat_for_TwoFloat.div
+      (arithmetic.impl_Sub_TwoFloat_for_TwoFloat.sub (TwoFloat.exp x)
+        (TwoFloat.exp (arithmetic.impl_Neg_for_TwoFloat.neg x)))
+      (arithmetic.impl_Add_TwoFloat_for_TwoFloat.add (TwoFloat.exp x)
+        (TwoFloat.exp (arithmetic.impl_Neg_for_TwoFloat.neg x)))) = q at *
+  generalize rv (TwoFloat.exp x) = a at *
+  generalize rv (TwoFloat.exp (arithmetic.impl_Neg_for_TwoFloat.neg x)) = b at *
+  by_cases h0 : 0 ≤ rv x
+  · have hle : Real.exp (-rv x) ≤ Real.exp (rv x) := Real.exp_le_exp.2 (by linarith)
+    have core := tanh_real hle hB0 (a21 h0) b37 hnum hden hqe
+    rw [abs_of_nonneg (div_nonneg (by rw [hNdef]; linarith) hD0.le)]
+    exact core
+  · have h0' : 0 ≤ -rv x := by linarith [not_le.1 h0]
+    have hle : Real.exp (rv x) ≤ Real.exp (-rv x) := Real.exp_le_exp.2 (by linarith)
+    have hnum' : |(-nr) - (b - a)| ≤ cA * |b - a| := by
+      rw [show -nr - (b - a) = -(nr - (a - b)) by ring, abs_neg, abs_sub_comm b a]; exact hnum
+    have hden' : |dr - (b + a)| ≤ cA * |b + a| := by rw [add_comm b a]; exact hden
+    have hqe' : |(-q) - (-nr) / dr| ≤ 1 / 2 ^ 102 * |(-nr) / dr| := by
+      rw [neg_div, show -q - -(nr / dr) = -(q - nr / dr) by ring, abs_neg, abs_neg]; exact hqe
+    have core := tanh_real hle hA0 (b21 h0') a37 hnum' hden' hqe'
+    have e1 : (Real.exp (-rv x) - Real.exp (rv x)) / (Real.exp (-rv x) + Real.exp (rv x)) = -(N / D) := by
+      rw [hNdef, hDdef, add_comm (Real.exp (-rv x)), ← neg_div]; congr 1; ring
+    rw [e1, show -q - -(N / D) = -(q - N / D) by ring, abs_neg] at core
+    have hneg : N / D ≤ 0 := div_nonpos_of_nonpos_of_nonneg (by rw [hNdef]; linarith) hD0.le
+    rw [abs_of_nonpos hneg]
+    exact core
+
+/-! ## examples -/
+
+/-- the double-double `(c, 0)` -/
+def ofF (c : F64) : TwoFloat := ⟨c, F64.zero⟩
+
+theorem val_of_V {t : TwoFloat} {n : ℤ} (h : t.V = n) : val t = (n : ℝ) / 2 ^ 1074 := by
+  show ExpBound.rv t = _
+  unfold ExpBound.rv; rw [h]
+
+theorem val_one : val (ofF F64.one) = 1 := by
+  rw [val_of_V (show (ofF F64.one).V = 2 ^ 1074 by decide +kernel)]
+  simp only [Int.cast_pow, Int.cast_ofNat]
+  exact div_self (by positivity : ((2 : ℝ) ^ 1074) ≠ 0)
+
+/-- `cosh(1)`, `sinh(1)`, `tanh(1)` -/
+example :
+    |val (TwoFloat.cosh (ofF F64.one)) - Real.cosh 1| ≤ Real.cosh 1 / 2 ^ 100 ∧
+    |val (TwoFloat.sinh (ofF F64.one)) - Real.sinh 1| ≤ |Real.sinh 1| / 2 ^ 100 + 1 / 2 ^ 101 ∧
+    |val (TwoFloat.tanh (ofF F64.one)) - Real.tanh 1| ≤ |Real.tanh 1| / 2 ^ 100 + 1 / 2 ^ 101 := by
+  have hv : (ofF F64.one).Valid := by decide +kernel
+  have hw : (ofF F64.one).WF := ⟨by decide +kernel, by decide +kernel⟩
+  have h1 := (cosh_bound (ofF F64.one) hv hw (by rw [val_one]; norm_num)).2
+  have h2 := (sinh_bound (ofF F64.one) hv hw (by rw [val_one]; norm_num)).2.2
+  have h3 := (tanh_bound_partial (ofF F64.one) hv hw (by rw [val_one]; norm_num) (by rw [val_one]; norm_num)).2.2
+  rw [val_one] at h1 h2 h3
+  exact ⟨h1, h2, h3⟩
 
 end C18h
